@@ -18,7 +18,9 @@
 // again, resets, or waits for another goroutine reading <M>Calls(); the outer call must return
 // (watchdog: "deadlock") and the nested read must already contain the running call.
 //
-// Testify mocks: every method gets ONE expectation, registered through the generated expecter with a
+// Testify mocks: the mock struct must consist of the embedded mock.Mock only (reflection); the expectations
+// are registered by one goroutine per method at the same time, so the first EXPECT() calls on the fresh
+// mock are concurrent.  Every method gets ONE expectation, registered through the generated expecter with a
 // typed handler - <Mock>_<M>_Call.Run(fn).Return(tokens) or .RunAndReturn(fn), alternating - or, when
 // that handler already misbehaves in a single-threaded probe on a mock of its own (C03's subject:
 // rolled variadics / nil arguments in the unfixed Run wrapper), a plain On(..).Return(..).  Then G
@@ -48,6 +50,10 @@ import (
 )
 
 var registry = map[string]func() any{}
+
+// typed EXPECT() calls of the testify mocks (generated into registry.go): calling EXPECT through reflect would
+// go through reflect's internal caches, whose locks order the goroutines and hide a race from the detector
+var expectFns = map[string]func(any){}
 
 type tokErr int
 
@@ -717,7 +723,7 @@ func probeReentrancy(job Job, mk func() any, res *Result, E *errs) bool {
 					E.add("%s re-entrancy(reset): %d records right after Reset%sCalls() inside %sFunc, want 0", job.Mock, seen, m.name, m.name)
 				}
 			}
-		case <-time.After(3 * time.Second):
+		case <-time.After(6 * time.Second):
 			E.add("%s re-entrancy(%s): deadlock - %s never returned although %sFunc only used the mock it serves (lock%s still held while the user function runs?)", job.Mock, variant, m.name, m.name, m.name)
 			ok = false
 		}
@@ -884,11 +890,51 @@ func stressTestify(job Job, mk func() any, res *Result, E *errs) {
 				res.Typed++
 			}
 		}
-		registerTestify(job, mock, m, m.kind, maxUID, E, "stress")
 		ms = append(ms, m)
 	}
 	if len(ms) == 0 {
 		return
+	}
+	// the generated code adds no state of its own: the mock struct is the embedded mock.Mock and nothing else
+	if st := mock.Elem().Type(); st.NumField() != 1 || !st.Field(0).Anonymous || st.Field(0).Type != reflect.TypeOf(tmock.Mock{}) {
+		var extra []string
+		for i := 0; i < st.NumField(); i++ {
+			if f := st.Field(i); !(f.Anonymous && f.Type == reflect.TypeOf(tmock.Mock{})) {
+				extra = append(extra, f.Name+" "+f.Type.String())
+			}
+		}
+		E.add("%s: the generated testify mock struct has state besides the embedded mock.Mock: %v", job.Mock, extra)
+	}
+	// registration: the FIRST EXPECT() calls on the fresh shared mock happen concurrently - one worker per method
+	// (at least two workers), each registering its own expectation through mock.EXPECT(); nothing touched the mock before
+	{
+		workers := len(ms)
+		if workers < 4 {
+			workers = 4
+		}
+		firstExpect := expectFns[job.Mock]
+		obj := mock.Interface()
+		start := make(chan struct{})
+		var rg sync.WaitGroup
+		for w := 0; w < workers; w++ {
+			rg.Add(1)
+			go func(w int) {
+				defer rg.Done()
+				defer func() {
+					if r := recover(); r != nil {
+						E.add("%s: panic while registering expectations concurrently: %v", job.Mock, r)
+					}
+				}()
+				m := ms[w%len(ms)]
+				<-start
+				if firstExpect != nil {
+					firstExpect(obj) // the very first thing every worker does with the shared mock
+				}
+				registerTestify(job, mock, m, m.kind, maxUID, E, "stress")
+			}(w)
+		}
+		close(start)
+		rg.Wait()
 	}
 	var wg sync.WaitGroup
 	var calls int64
